@@ -234,12 +234,19 @@ func (w *World) netStep() bool {
 	}
 	switch {
 	case band(cfg.ProofPm):
-		if w.ch.Pick("proof-genuine", 5) == 4 {
+		switch w.ch.Pick("proof-genuine", 6) {
+		case 4:
 			if w.offerGenuineProof() {
 				return true
 			}
-		} else if w.forgeProofStep() {
-			return true
+		case 5:
+			if w.syntheticProofStep() {
+				return true
+			}
+		default:
+			if w.forgeProofStep() {
+				return true
+			}
 		}
 	case band(cfg.ByzPm):
 		if w.adversaryStep() {
